@@ -605,7 +605,13 @@ class SimQueue:
         return self.get(block=False)
 
     def task_done(self):
+        if self._unfinished <= 0:
+            raise ValueError("task_done() called too many times")
         self._unfinished -= 1
+
+    @property
+    def unfinished_tasks(self):
+        return self._unfinished
 
     def join(self):
         K().block(lambda: self._unfinished <= 0, None)
